@@ -10,7 +10,7 @@ UNITS = [
 def _fns(src):
     return re.findall(r'^HARNESS (h_\w+)\(\)', open(os.path.join(_here, src)).read(), re.M)
 HARNESSES = []
-for unit, src in (('x86op', 'h_x86fmt.cpp'), ('x86mem', 'h_x86mem.cpp')):   # ('x86line', 'h_x86line.cpp'): no verdict yet, see the notes in that file
+for unit, src in (('x86op', 'h_x86fmt.cpp'), ('x86mem', 'h_x86mem.cpp'), ('x86line', 'h_x86line.cpp')):
   for fn in _fns(src):
     wide = fn.endswith('_wide') or fn.endswith('imm_32')
     HARNESSES.append(Harness(unit, fn, unwind=18, mem_gb=6, timeout=900 if not wide else 3600, tiers=('thorough',) if wide else ('quick', 'thorough'),
